@@ -211,7 +211,7 @@ pub fn finish_check(meta: &CheckMeta, acc: &Acc, wall_s: f64, extra: Map<String,
     let _ = std::fs::create_dir_all(format!("{}/evidence", root));
     let _ = std::fs::create_dir_all(format!("{}/replays", root));
     // replay files of earlier runs of this check are stale
-    if let Ok(rd) = std::fs::read_dir(format!("{}/replays", root)) {
+    if let (Ok(rd), false) = (std::fs::read_dir(format!("{}/replays", root)), std::env::var("VERIF_ARITH").map(|v| v == "checked").unwrap_or(false)) {
         for e in rd.flatten() {
             let name = e.file_name().to_string_lossy().to_string();
             if name.starts_with(&format!("{}-", meta.id)) && name.ends_with(".json") {
@@ -219,6 +219,10 @@ pub fn finish_check(meta: &CheckMeta, acc: &Acc, wall_s: f64, extra: Map<String,
             }
         }
     }
+    // second pass of bin/check: the same check built with the arithmetic of a debug build
+    // (overflow checks and debug assertions on); its results are merged into the evidence the
+    // release-arithmetic pass has just written
+    let checked_pass = std::env::var("VERIF_ARITH").map(|v| v == "checked").unwrap_or(false);
     let mut new_violations = 0;
     let mut known_hits = 0;
     let mut lines = vec![];
@@ -227,9 +231,9 @@ pub fn finish_check(meta: &CheckMeta, acc: &Acc, wall_s: f64, extra: Map<String,
     let mut vjson = vec![];
     for v in vs {
         let is_known = known.iter().find(|k| k.property == v.prop && !k.sig_prefix.is_empty() && v.sig.starts_with(&k.sig_prefix));
-        let h = crate::rng::fnv(0, v.sig.as_bytes());
+        let h = crate::rng::fnv(if checked_pass { 1 } else { 0 }, v.sig.as_bytes());
         let path = format!("{}/replays/{}-{:016x}.json", root, v.prop, h);
-        let replay = json!({
+        let mut replay = json!({
             "property": v.prop,
             "signature": v.sig,
             "detail": v.detail,
@@ -237,6 +241,10 @@ pub fn finish_check(meta: &CheckMeta, acc: &Acc, wall_s: f64, extra: Map<String,
             "run": v.run,
             "scenario": v.scenario,
         });
+        if checked_pass {
+            // `wsim replay` hands such a file to the binary built with the same arithmetic
+            replay["build"] = json!("checked");
+        }
         let _ = std::fs::write(&path, serde_json::to_string_pretty(&replay).unwrap());
         match is_known {
             Some(k) => {
@@ -286,6 +294,33 @@ pub fn finish_check(meta: &CheckMeta, acc: &Acc, wall_s: f64, extra: Map<String,
         "known_findings_hit": known_hits,
     });
     let path = format!("{}/evidence/{}.json", root, meta.id);
+    let ev = if checked_pass {
+        match std::fs::read_to_string(&path).ok().and_then(|t| serde_json::from_str::<Value>(&t).ok()) {
+            Some(mut first) => {
+                let c = &ev["coverage"];
+                first["coverage"]["checked_arithmetic_pass"] = json!({
+                    "what": "the same check, same seed, harness and engine sources compiled with overflow-checks and debug-assertions on (the arithmetic of `cargo run` / `cargo test`); the first pass uses the arithmetic of the shipped release build",
+                    "tier": meta.tier,
+                    "evaluations": c["evaluations"],
+                    "distinct_nontrivial": c["distinct_nontrivial"],
+                    "simulated_seconds": c["simulated_seconds"],
+                    "violation_list": c["violation_list"],
+                    "violations": new_violations,
+                    "known_findings_hit": known_hits,
+                    "wall_s": wall_s,
+                });
+                first["violations"] = json!(first["violations"].as_u64().unwrap_or(0) + new_violations as u64);
+                first["wall_s"] = json!(first["wall_s"].as_f64().unwrap_or(0.0) + wall_s);
+                first
+            }
+            None => {
+                eprintln!("harness error: the checked-arithmetic pass found no evidence of the first pass at {}", path);
+                return 2;
+            }
+        }
+    } else {
+        ev
+    };
     if let Err(e) = std::fs::write(&path, serde_json::to_string_pretty(&ev).unwrap()) {
         eprintln!("cannot write evidence {}: {}", path, e);
         return 2;
@@ -294,7 +329,8 @@ pub fn finish_check(meta: &CheckMeta, acc: &Acc, wall_s: f64, extra: Map<String,
         std::println!("{}", l);
     }
     std::println!(
-        "{} {} seed={} evaluations={} distinct_nontrivial={} violations={} known={} wall={:.1}s",
+        "{}{} {} seed={} evaluations={} distinct_nontrivial={} violations={} known={} wall={:.1}s",
+        if checked_pass { "(checked arithmetic) " } else { "" },
         meta.id,
         meta.tier,
         meta.seed,
